@@ -44,6 +44,10 @@ func boolFactsOf(facts []EdgeFact) []BoolFact {
 // fieldFlagFact: is there a dominating fact that bool field `fr` (of any base) was loaded and found == want?
 // Returns the load instruction establishing it.
 func fieldFlagFact(in ssa.Instruction, fr FieldRef, want bool) *ssa.UnOp {
+	return fieldFlagFactDepth(in, fr, want, 0)
+}
+
+func fieldFlagFactDepth(in ssa.Instruction, fr FieldRef, want bool, depth int) *ssa.UnOp {
 	for _, f := range boolFactsAt(in) {
 		if f.True != want {
 			continue
@@ -52,6 +56,50 @@ func fieldFlagFact(in ssa.Instruction, fr FieldRef, want bool) *ssa.UnOp {
 			if r, _, ok := fieldOfAddr(u.X); ok && r == fr {
 				return u
 			}
+		}
+	}
+	if depth > 1 {
+		return nil
+	}
+	// "helper(...) returned a nil error" implies what holds at every nil-error return of that helper (a validation step
+	// split off into a helper that tests the flag and reports an error)
+	for _, f := range factsAt(in) {
+		x, op, y, ok := cmpFact(f)
+		if !ok || op != token.EQL || !isNilConst(y) {
+			continue
+		}
+		var call *ssa.Call
+		idx := 0
+		switch v := stripConv(x).(type) {
+		case *ssa.Call:
+			call = v
+		case *ssa.Extract:
+			call, _ = v.Tuple.(*ssa.Call)
+			idx = v.Index
+		}
+		if call == nil {
+			continue
+		}
+		h := helperCallee(call)
+		if h == nil || idx != h.Signature.Results().Len()-1 || types.TypeString(h.Signature.Results().At(idx).Type(), nil) != "error" {
+			continue
+		}
+		var found *ssa.UnOp
+		okAll, n := true, 0
+		allInstrsLocal(h, func(x ssa.Instruction) {
+			ret, isR := x.(*ssa.Return)
+			if !isR || idx >= len(ret.Results) || !isNilConst(ret.Results[idx]) {
+				return
+			}
+			n++
+			if u := fieldFlagFactDepth(ret, fr, want, depth+1); u != nil {
+				found = u
+			} else {
+				okAll = false
+			}
+		})
+		if okAll && n > 0 && found != nil {
+			return found
 		}
 	}
 	return nil
